@@ -6,6 +6,10 @@ case = {"n": N, "bases": [[..] per interface 1..N], "attrs": [[[name, kind], ..]
         "tags": [[[tag, value], ..] ..], "style": ["body"|"call", ..], "invs": [[id, ..] ..],
         "invkind": {"<id>": "func"|"unhash"|"eqhash"} (optional, default func),
         "failing": [id, ..], "ops": [...], "names": [...], "tagsU": [...]}
+ops: ["setbases", x, [b..]] | ["settag", x, tag, value] | ["get", x, name, how] | ["snap", x] (observe every
+accessor on x now) | ["dictmut", x, "add"|"del"|"clear", name] (the CALLER changes the dict it passed to
+InterfaceClass(name, bases, d) for a "call"-style interface x; must have no effect).
+Optional "dictreuse": {"<i>": j}: interface i is created from the (cleared and refilled) dict object of j.
 Optional "pyname": [k per interface]: interface i (variable I<i>, identity = i) gets __name__ "I<k>";
 k != i makes it a TWIN of interface k: a different object that compares equal to it (same name and
 module).  A tagged value may be None (JSON null): a defined value.
@@ -106,8 +110,14 @@ def iface_source(case, i, module='c15'):
             else:
                 lines.append("def _m%d_%d(%s): pass" % (i, nm, ", ".join("p%d" % j for j in range(i))))
                 items.append("'a%d': _m%d_%d" % (nm, i, nm))
-        lines.append("I%d = InterfaceClass('I%d', (%s), {%s}, __module__=%r)" % (
-            i, pyname, "".join("I%d, " % b for b in bases), ", ".join(items), module))
+        # the caller keeps the dict (D<i>) and may change or reuse it later: the interface must not care
+        reuse = (case.get("dictreuse") or {}).get(str(i))
+        if reuse is None:
+            lines.append("D%d = {%s}" % (i, ", ".join(items)))
+        else:
+            lines.append("D%d = D%d; D%d.clear(); D%d.update({%s})" % (i, reuse, i, i, ", ".join(items)))
+        lines.append("I%d = InterfaceClass('I%d', (%s), D%d, __module__=%r)" % (
+            i, pyname, "".join("I%d, " % b for b in bases), i, module))
         for t, v in tags:
             lines.append("I%d.setTaggedValue(%r, %r)" % (i, tagname(t), v))
         if invs:
@@ -132,6 +142,14 @@ def op_source(op):
         return "I%d.__bases__ = (%s)" % (op[1], "".join("I%d, " % b for b in op[2]))
     if op[0] == "settag":
         return "I%d.setTaggedValue(%r, %r)" % (op[1], tagname(op[2]), op[3])
+    if op[0] == "snap":
+        return "# observe every accessor on I%d" % op[1]
+    if op[0] == "dictmut":
+        if op[2] == "add":
+            return "D%d['a%d'] = Attribute('a%d', 'dX')" % (op[1], op[3], op[3])
+        if op[2] == "del":
+            return "D%d.pop('a%d', None)" % (op[1], op[3])
+        return "D%d.clear()" % op[1]
     if op[0] == "get":
         how = op[3]
         if how == 2:
